@@ -20,6 +20,7 @@ weight one for the subject's type (`Weight2.w1Rel`, the hypothesis of `weight2_s
 -/
 import OpenFGAVerif.Driver.FgaCase
 import OpenFGAVerif.Model.CheckPlan
+import OpenFGAVerif.Gen.Strategies
 
 open OpenFGAVerif OpenFGAVerif.Proto OpenFGAVerif.Vocab OpenFGAVerif.CheckV1 OpenFGAVerif.Dfs OpenFGAVerif.FgaCase
 
@@ -78,6 +79,23 @@ def badApplicability (w : World) : List String :=
        | _ => none)
     | _ => none)
 
+/-- the hypotheses of `C02.strategy_agree`, evaluated: concrete subject, no unevaluable condition among valid
+tuples, at most one tuple per key -/
+def hypsOk (w : World) : Bool :=
+  !isUserset w.req.user && !isTypedWildcard w.req.user &&
+  w.all.all (fun t => !validForRead w.model t || evalCond w.model w.req.ctx t != .err) &&
+  w.all.all (fun t => (w.all.filter (fun t' => t'.obj = t.obj && t'.rel = t.rel && t'.user = t.user)).length ≤ 1)
+
+/-- the default strategy's own defect (C01: F1 / F12) seen as a disagreement with a fast path: the default
+engine model has a tainted outcome with the default's decision, and the oracle sides with the fast path -/
+def defaultTainted (w : World) (maxDepth : Nat) (o : String) (defaultDec : List String) : Option String :=
+  let ms := checkSet w maxDepth
+  let tainted := ms.any (fun m => match m with | .ok a _ t => t && defaultDec.contains (if a then "T" else "F") | _ => false)
+  if !tainted || (o ≠ "T" && o ≠ "F") || defaultDec.contains o then none
+  else match oracleCodeExcl w with
+    | .ok _ _ true => some "F1 exclusion denies on the cycle flag of its subtracted operand (the default strategy is wrong here, C01; the fast path does not go through the flagged evaluation)"
+    | _ => some "F12 a condition evaluation error was swallowed by the tuple iterator (the default strategy is wrong here, C01)"
+
 def step (c impl : String) : String :=
   match parseCase c with
   | none => "SKIP unparsable-case"
@@ -92,14 +110,19 @@ def step (c impl : String) : String :=
     if allClasses = ["Einvalid"] then ok "request-rejected" false else
     let o := if cs.stratified then oracleClass w else "?"
     let nt := offeredL.length > 1
-    let tag := if offeredL.length > 1 then "planned-" ++ "+".intercalate offeredL else "single-strategy"
+    let tag0 := if offeredL.length > 1 then "planned-" ++ "+".intercalate offeredL else "single-strategy"
+    -- cases that satisfy the hypotheses of `strategy_agree` (evidence that they are not vacuous)
+    let tag := if offeredL.length > 1 && hypsOk w then tag0 ++ "-thm" else tag0
     -- (3) applicability
     match badApplicability w with
     | k :: _ =>
       specViol s!"the typesystem offers the weight-two strategy where a walked relation is not weight one for the subject's type: {k}"
     | [] =>
     -- (2) exact correspondence of the strategy models at breadth limit 1
-    let pcOf := fun (s : String) => ({ want := s, maxDepth := cs.maxDepth } : CheckPlan.Cfg)
+    -- the edge set of the recursive strategy follows the source (findings S1 / S2; switches of `Gen.Strategies`)
+    let sU : RecursiveV1.Strict := if Gen.Strategies.recursiveFollowsOnlySelfUserset then .repaired else .code
+    let sT : RecursiveV1.Strict := if Gen.Strategies.recursiveFollowsOnlySameTypeParents then .repaired else .code
+    let pcOf := fun (s : String) => ({ want := s, maxDepth := cs.maxDepth, strictU := sU, strictT := sT } : CheckPlan.Cfg)
     let b1 := fun (s : String) => ((kv.find? (·.1 = "b1" ++ s)).map (·.2)).getD []
     let mW := modelToks w (pcOf "weight2")
     let mR := modelToks w (pcOf "recursive")
@@ -134,7 +157,9 @@ def step (c impl : String) : String :=
       else
         let get := fun (s : String) => ((strategies.find? (·.1 = s)).map (·.2)).getD []
         let diag :=
-          if decisions (get "recursive") ≠ decisions (get "default") && decisions mR ≠ decisions (mRrepU ()) then
+          if (defaultTainted w cs.maxDepth o (decisions (get "default"))).isSome then
+            (defaultTainted w cs.maxDepth o (decisions (get "default"))).getD ""
+          else if decisions (get "recursive") ≠ decisions (get "default") && decisions mR ≠ decisions (mRrepU ()) then
             "S1 recursive userset strategy ignores the relation of userset tuples"
           else if decisions (get "recursive") ≠ decisions (get "default") && decisions mR ≠ decisions (mRrepT ()) then
             "S2 recursive TTU strategy follows parents of another type"
